@@ -822,9 +822,9 @@ impl<A: Flavor> World<A> {
                 ensure!(r.is_ok(), "C05", "flush-failed", "flush() failed: {:?}", r);
                 res = "ok".into();
             }
-            Op::Reopen { mode, cap } => {
+            Op::Reopen { mode, cap, create } => {
                 if self.cfg.backend == Backend::File {
-                    self.do_reopen(*mode, *cap)?;
+                    self.do_reopen(*mode, *cap, *create)?;
                     res = "ok".into();
                 }
             }
@@ -1525,7 +1525,7 @@ impl<A: Flavor> World<A> {
         Ok(())
     }
 
-    fn do_reopen(&mut self, mode: u8, capsel: u8) -> R {
+    fn do_reopen(&mut self, mode: u8, capsel: u8, create: bool) -> R {
         self.detach_all()?;
         let a = self.a();
         let closing = self.snap();
@@ -1561,6 +1561,10 @@ impl<A: Flavor> World<A> {
             _ => o,
         };
         let mode = mode & 3;
+        let o = if create && mode < 2 { o.with_create(true) } else { o };
+        if create && mode < 2 {
+            self.classes.insert("reopen-with-create");
+        }
         let what = ["map_mut", "map_copy", "map", "map_copy_read_only"][mode as usize];
         let r = guard(what, "C05", || unsafe {
             match mode {
